@@ -216,6 +216,18 @@ func handleRequest(clientID string, req *ntp.Packet, rxt, txt *time.Time, resp *
 			tssi.len++
 			tssMetrics.tssValues.Inc()
 		}
+		if o != -1 && o == max && tssi.qval != rxt64 {
+			// the maximum rx timestamp was replaced by an earlier one (e.g., a
+			// request with the rx timestamp of the previous one but one, which
+			// is on record no more), fix queue accordingly
+			for i := 0; i != tssi.len; i++ {
+				if !tssi.buf[i].rxt.Before(tssi.buf[max].rxt) {
+					max = i
+				}
+			}
+			tssi.qval = tssi.buf[max].rxt
+			heap.Fix(&tssQ, tssi.qidx)
+		}
 	}
 }
 
